@@ -20,7 +20,7 @@ gvars == <<P, hist, done>>
 (* input shapes that reach a recorded finding of C10 (findings_proposed/C10-*.md).  The bulk of the
    behaviours is generated with all of them avoided and must pass the strict invariants; a smaller
    batch is generated with none avoided and is judged with the finding-specific weakenings. *)
-KFTriggersWb  == {"delasgall", "replace", "delstmt2", "extdel", "lb", "largeadd"}
+KFTriggersWb  == {"delasgall", "replace", "delstmt2", "extdel", "lb", "largeadd", "delpolassigned"}
 KFTriggersApi == KFTriggersWb \cup {"apiorigin", "apicommact"}
 (* over the API a DeleteStatement of the "delstmt2" shape kills the server process: never generated *)
 ApiAlways     == {"delstmt2"}
@@ -145,7 +145,8 @@ GenDelPol ==
   /\ DOMAIN P.pols # {}
   /\ \E name \in Pick(DOMAIN P.pols) : \E all \in Pick(BOOLEAN) : \E pres \in Pick(BOOLEAN) : \E n \in Pick(1..2) :
        \E ns \in SomeOf(SeqSet(P.pols[name]), n) :
-         Step([op |-> "DelPol", name |-> name, all |-> all, preserve |-> (IF all THEN pres ELSE TRUE),
+         /\ ("delpolassigned" \in Avoid /\ all) => ~PolAssigned(P, name)
+         /\ Step([op |-> "DelPol", name |-> name, all |-> all, preserve |-> (IF all THEN pres ELSE TRUE),
                stmts |-> LET q == SetToSeq(IF all THEN {} ELSE ns) IN [i \in 1..Len(q) |-> BareStmt(q[i])]])
 
 DefChoice == {"accept", "reject", "none"}
@@ -200,9 +201,10 @@ GenNext ==
         \/ GenDelSet
         \/ \E i \in 1..2 : GenAddStmt
         \/ GenDelStmt
-        \/ GenAddPol
+        \* get to an assigned, non-empty program early: most of a behaviour should evaluate routes
+        \/ \E i \in 1..(IF DOMAIN P.pols = {} THEN 5 ELSE 1) : GenAddPol
         \/ GenDelPol
-        \/ GenSetAsg
+        \/ \E i \in 1..(IF \A d \in Dirs : Flat(P, d) = <<>> THEN 6 ELSE 1) : GenSetAsg
         \/ GenAddAsg
         \/ GenDelAsg
         \/ \E i \in 1..EvalWeight : GenEval
